@@ -30,6 +30,7 @@ TIERS = dict(quick=dict(cases=8000, wall=45.0), thorough=dict(cases=500000, wall
 SIM_TIME_UNIT = "net steps"
 
 ERRNOS = netmod.CONN_ERRNOS
+UNLISTED = [errno.ECONNABORTED, errno.ENOBUFS, errno.EIO]
 
 
 def sweep_table():
@@ -71,6 +72,10 @@ def run_case(tape, tier):
             if fault["code"] == netmod.SSL_EOF:
                 ops = ["tls_send", "tls_recv", "tls_handshake"]
             fault["op"] = tape.pick("op", ops)
+            if fault["side"] == "server" and fault["op"] == "recv" and tape.flag("unlisted_errno", 1, 4):
+                # an errno outside the property's list on a server-side recv: hio drops that connection
+                # (Server.serviceReceivesAllIx); the statement's other half still applies: no raise, the others go on
+                fault["code"] = tape.pick("unlisted", UNLISTED)
             fault["idx"] = tape.draw("call_idx", 8 if tier == "quick" else 12)
             fault["one_shot"] = tape.flag("one_shot", 1, 2)     # the call fails once, the socket stays usable
         else:
@@ -260,7 +265,8 @@ def run_case(tape, tier):
                             cfg["fault"]["code"], fault["op"], sn))
                 else:
                     # server side: a remoter (or handshaking remoter) must be marked
-                    marked = [rm for rm in lab.remoters if rm.cutoff or getattr(rm, "aborted", False)]
+                    marked = [rm for rm in lab.remoters if rm.cutoff or getattr(rm, "aborted", False) or
+                              (fault["code"] in UNLISTED and rm.cs is None)]     # dropped and closed counts for an unlisted errno
                     res.comparisons += 1
                     if not marked:
                         res.violate("not-marked", "server side met %s but no remoter is cutoff/aborted" % (cfg["fault"],))
